@@ -843,6 +843,7 @@ static void c13_history(vf::Rng& r) {
         std::string t = c13_text(r, valid);
         jm::RefResult ref = jm::ref_parse(t);
         if (ref.f.cls == jm::Fault::String && ref.f.surrogate_only) continue;
+        if (ref.ok && jm::has_dup_keys(ref.v)) continue;  // lookup maps on objects with duplicate keys are outside the statements
         h.log(std::string("Parse(") + (ref.ok ? "valid" : "invalid") + "," + std::to_string(t.size()) + " bytes)");
         if (ref.ok) c13_parse_ok.add(); else c13_parse_bad.add();
         h.doc.Parse(t.data(), t.size());
@@ -855,7 +856,7 @@ static void c13_history(vf::Rng& r) {
         JsonPointer jp;
         jp.push_back(JsonPointerNode(std::string(r.coin() ? "a" : "b")));
         jm::RefResult ref = jm::ref_parse(t);
-        if (!ref.ok) continue;
+        if (!ref.ok || jm::has_dup_keys(ref.v)) continue;
         h.log("ParseOnDemand");
         c13_pod.add();
         h.doc.ParseOnDemand(t.data(), t.size(), jp);
@@ -901,6 +902,7 @@ static void c13_history(vf::Rng& r) {
         h.invalidate_maps_below(dst);
         std::string t2 = c13_text(r, true);
         jm::RefResult ref2 = jm::ref_parse(t2);
+        if (!ref2.ok || jm::has_dup_keys(ref2.v)) { t2 = "[1,{\"z\":null}]"; ref2 = jm::ref_parse(t2); }
         side.doc.Parse(t2.data(), t2.size());
         side.model = (!side.doc.HasParseError() && ref2.ok) ? ref2.v : JVal::null();
         side.maps.clear();
